@@ -1,9 +1,259 @@
-"""Declarations beyond the core (constraints, buffers, indicators, objectives)."""
+"""Declarations beyond the core: constraints, buffers (indicators / objectives in pslib_ind)."""
+import z3
+import processscheduler as ps
+
+from harness.pslib import q, opt, b, lst
+
+
+# ------------------------------------------------------------------ raw expressions
+# A tiny expression AST shared by both interpreters:
+#   terms : int | ("tstart", T) | ("tend", T) | ("tdur", T) | ("horizon",) | ("+", a, b) | ("-", a, b) | ("*", a, b)
+#   fmls  : True | False | ("sched", T) | ("not", f) | ("and", f..) | ("or", f..) | ("<=", a, b) | ("<", ..) | (">=", ..)
+#           | (">", ..) | ("=", ..) | ("!=", ..)
+def term_sx(t):
+    if isinstance(t, int):
+        return str(t)
+    k = t[0]
+    if k in ("tstart", "tend", "tdur"):
+        return f"(var ({k} {q(t[1])}))"
+    if k == "horizon":
+        return "(var (horizon))"
+    return f"({k} {term_sx(t[1])} {term_sx(t[2])})"
+
+
+def fml_sx(f):
+    if f is True:
+        return "true"
+    if f is False:
+        return "false"
+    k = f[0]
+    if k == "sched":
+        return f"(bvar (sched {q(f[1])}))"
+    if k == "not":
+        return f"(not {fml_sx(f[1])})"
+    if k in ("and", "or"):
+        return "(" + " ".join([k] + [fml_sx(x) for x in f[1:]]) + ")"
+    return f"({k} {term_sx(f[1])} {term_sx(f[2])})"
+
+
+def term_z3(real, t):
+    if isinstance(t, int):
+        return t
+    k = t[0]
+    if k == "tstart":
+        return real.tasks[t[1]]._start
+    if k == "tend":
+        return real.tasks[t[1]]._end
+    if k == "tdur":
+        return real.tasks[t[1]]._duration
+    if k == "horizon":
+        return real.problem._horizon
+    a, c = term_z3(real, t[1]), term_z3(real, t[2])
+    return {"+": lambda: a + c, "-": lambda: a - c, "*": lambda: a * c}[k]()
+
+
+def fml_z3(real, f):
+    if f is True or f is False:
+        return z3.BoolVal(f)
+    k = f[0]
+    if k == "sched":
+        return real.tasks[f[1]]._scheduled
+    if k == "not":
+        return z3.Not(fml_z3(real, f[1]))
+    if k == "and":
+        return z3.And([fml_z3(real, x) for x in f[1:]])
+    if k == "or":
+        return z3.Or([fml_z3(real, x) for x in f[1:]])
+    a, c = term_z3(real, f[1]), term_z3(real, f[2])
+    return {"<=": lambda: a <= c, "<": lambda: a < c, ">=": lambda: a >= c, ">": lambda: a > c,
+            "=": lambda: a == c, "!=": lambda: a != c}[k]()
+
+
+# ------------------------------------------------------------------ constraint bodies
+def operand_sx(o):
+    return f"(ref {o[1]})" if o[0] == "ref" else f"(raw {fml_sx(o[1])})"
+
+
+def pair(p):
+    return f"({p[0]} {p[1]})"
+
+
+def cbody_sx(c):
+    k = c[0]
+    if k in ("startAt", "endAt"):
+        return f"({k} {q(c[1])} {c[2]})"
+    if k in ("startAfter", "endBefore"):
+        return f"({k} {q(c[1])} {c[2]} {b(c[3])})"
+    if k == "precedence":
+        return f"(precedence {q(c[1])} {q(c[2])} {c[3]} {c[4]})"
+    if k in ("startSynced", "endSynced", "dontOverlap", "dependency"):
+        return f"({k} {q(c[1])} {q(c[2])})"
+    if k == "contiguous":
+        return f"(contiguous {lst(c[1], q)})"
+    if k == "unorderedGroup":
+        return f"(unorderedGroup {lst(c[1], q)} {opt(c[2], pair)} {c[3]})"
+    if k == "orderedGroup":
+        return f"(orderedGroup {lst(c[1], q)} {opt(c[2], pair)} {c[3]} {c[4]})"
+    if k == "scheduleN":
+        return f"(scheduleN {lst(c[1], q)} {c[2]} {lst(c[3], pair)} {c[4]})"
+    if k == "forceSchedule":
+        return f"(forceSchedule {q(c[1])} {b(c[2])})"
+    if k == "conditionSchedule":
+        return f"(conditionSchedule {q(c[1])} {fml_sx(c[2])})"
+    if k == "forceScheduleN":
+        return f"(forceScheduleN {lst(c[1], q)} {c[2]} {c[3]})"
+    if k == "fromExpr":
+        return f"(fromExpr {fml_sx(c[1])})"
+    if k == "forceApplyN":
+        return f"(forceApplyN {lst(c[1])} {c[2]} {c[3]})"
+    if k == "not":
+        return f"(not {operand_sx(c[1])})"
+    if k in ("or", "and"):
+        return f"({k} {lst(c[1], operand_sx)})"
+    if k == "xor":
+        return f"(xor {operand_sx(c[1])} {operand_sx(c[2])})"
+    if k == "implies":
+        return f"(implies {fml_sx(c[1])} {lst(c[2], operand_sx)})"
+    if k == "ifThenElse":
+        return f"(ifThenElse {fml_sx(c[1])} {lst(c[2], operand_sx)} {lst(c[3], operand_sx)})"
+    if k == "unavailable":
+        return f"(unavailable {q(c[1])} {lst(c[2], pair)})"
+    if k == "workload":
+        return f"(workload {q(c[1])} {lst(c[2], lambda t: f'({t[0]} {t[1]} {t[2]})')} {c[3]})"
+    if k == "nonDelay":
+        return f"(nonDelay {q(c[1])})"
+    if k == "distance":
+        return f"(distance {q(c[1])} {c[2]} {opt(c[3], lambda l: lst(l, pair))} {c[4]})"
+    if k in ("sameWorkers", "distinctWorkers"):
+        return f"({k} {c[1]} {c[2]})"
+    if k in ("unloadBuffer", "loadBuffer"):
+        return f"({k} {q(c[1])} {q(c[2])} {c[3]})"
+    if k == "indicatorTarget":
+        return f"(indicatorTarget {c[1]} {c[2]})"
+    if k == "indicatorBounds":
+        return f"(indicatorBounds {c[1]} {opt(c[2])} {opt(c[3])})"
+    raise ValueError(k)
 
 
 def to_line(d):
-    raise ValueError(f"unknown op {d['op']}")
+    op = d["op"]
+    if op == "constraint":
+        return f"(constraint {opt(d.get('name'), q)} {b(d.get('optional', False))} {cbody_sx(d['c'])})"
+    if op == "buffer":
+        return (f"(buffer {q(d['name'])} {b(d.get('concurrent', False))} {opt(d.get('initial'))} "
+                f"{opt(d.get('final'))} {opt(d.get('lb'))} {opt(d.get('ub'))})")
+    from harness import pslib_ind
+    return pslib_ind.to_line(d)
+
+
+def resource_named(real, n):
+    return real.workers[n] if n in real.workers else real.cumuls[n]
+
+
+def operand_obj(real, o):
+    return real.constraint_by_id(o[1]) if o[0] == "ref" else fml_z3(real, o[1])
+
+
+def make_constraint(real, c, kw):
+    k = c[0]
+    T = real.tasks
+    if k == "startAt":
+        return ps.TaskStartAt(task=T[c[1]], value=c[2], **kw)
+    if k == "startAfter":
+        return ps.TaskStartAfter(task=T[c[1]], value=c[2], kind="strict" if c[3] else "lax", **kw)
+    if k == "endAt":
+        return ps.TaskEndAt(task=T[c[1]], value=c[2], **kw)
+    if k == "endBefore":
+        return ps.TaskEndBefore(task=T[c[1]], value=c[2], kind="strict" if c[3] else "lax", **kw)
+    if k == "precedence":
+        return ps.TaskPrecedence(task_before=T[c[1]], task_after=T[c[2]], offset=c[3], kind=c[4], **kw)
+    if k == "startSynced":
+        return ps.TasksStartSynced(task_1=T[c[1]], task_2=T[c[2]], **kw)
+    if k == "endSynced":
+        return ps.TasksEndSynced(task_1=T[c[1]], task_2=T[c[2]], **kw)
+    if k == "dontOverlap":
+        return ps.TasksDontOverlap(task_1=T[c[1]], task_2=T[c[2]], **kw)
+    if k == "contiguous":
+        return ps.TasksContiguous(list_of_tasks=[T[t] for t in c[1]], **kw)
+    if k == "unorderedGroup":
+        extra = {"time_interval": tuple(c[2])} if c[2] is not None else {}
+        return ps.UnorderedTaskGroup(list_of_tasks=[T[t] for t in c[1]], time_interval_length=c[3], **extra, **kw)
+    if k == "orderedGroup":
+        extra = {"time_interval": tuple(c[2])} if c[2] is not None else {}
+        return ps.OrderedTaskGroup(list_of_tasks=[T[t] for t in c[1]], time_interval_length=c[3], kind=c[4],
+                                   **extra, **kw)
+    if k == "scheduleN":
+        return ps.ScheduleNTasksInTimeIntervals(list_of_tasks=[T[t] for t in c[1]], nb_tasks_to_schedule=c[2],
+                                                list_of_time_intervals=[tuple(p) for p in c[3]], kind=c[4], **kw)
+    if k == "forceSchedule":
+        return ps.OptionalTaskForceSchedule(task=T[c[1]], to_be_scheduled=c[2], **kw)
+    if k == "conditionSchedule":
+        return ps.OptionalTaskConditionSchedule(task=T[c[1]], condition=fml_z3(real, c[2]), **kw)
+    if k == "dependency":
+        return ps.OptionalTasksDependency(task_1=T[c[1]], task_2=T[c[2]], **kw)
+    if k == "forceScheduleN":
+        return ps.ForceScheduleNOptionalTasks(list_of_optional_tasks=[T[t] for t in c[1]],
+                                              nb_tasks_to_schedule=c[2], kind=c[3], **kw)
+    if k == "fromExpr":
+        return ps.ConstraintFromExpression(expression=fml_z3(real, c[1]), **kw)
+    if k == "forceApplyN":
+        return ps.ForceApplyNOptionalConstraints(
+            list_of_optional_constraints=[real.constraint_by_id(i) for i in c[1]],
+            nb_constraints_to_apply=c[2], kind=c[3], **kw)
+    if k == "not":
+        return ps.Not(constraint=operand_obj(real, c[1]), **kw)
+    if k == "or":
+        return ps.Or(list_of_constraints=[operand_obj(real, o) for o in c[1]], **kw)
+    if k == "and":
+        return ps.And(list_of_constraints=[operand_obj(real, o) for o in c[1]], **kw)
+    if k == "xor":
+        return ps.Xor(constraint_1=operand_obj(real, c[1]), constraint_2=operand_obj(real, c[2]), **kw)
+    if k == "implies":
+        return ps.Implies(condition=fml_z3(real, c[1]), list_of_constraints=[operand_obj(real, o) for o in c[2]], **kw)
+    if k == "ifThenElse":
+        return ps.IfThenElse(condition=fml_z3(real, c[1]),
+                             then_list_of_constraints=[operand_obj(real, o) for o in c[2]],
+                             else_list_of_constraints=[operand_obj(real, o) for o in c[3]], **kw)
+    if k == "unavailable":
+        return ps.ResourceUnavailable(resource=resource_named(real, c[1]),
+                                      list_of_time_intervals=[tuple(p) for p in c[2]], **kw)
+    if k == "workload":
+        return ps.WorkLoad(resource=resource_named(real, c[1]),
+                           dict_time_intervals_and_bound={(t[0], t[1]): t[2] for t in c[2]}, kind=c[3], **kw)
+    if k == "nonDelay":
+        return ps.ResourceNonDelay(resource=resource_named(real, c[1]), **kw)
+    if k == "distance":
+        extra = {"list_of_time_intervals": [tuple(p) for p in c[3]]} if c[3] is not None else {}
+        return ps.ResourceTasksDistance(resource=resource_named(real, c[1]), distance=c[2], mode=c[4], **extra, **kw)
+    if k == "sameWorkers":
+        s = real.selects()
+        return ps.SameWorkers(select_workers_1=s[c[1]], select_workers_2=s[c[2]], **kw)
+    if k == "distinctWorkers":
+        s = real.selects()
+        return ps.DistinctWorkers(select_workers_1=s[c[1]], select_workers_2=s[c[2]], **kw)
+    if k == "unloadBuffer":
+        return ps.TaskUnloadBuffer(task=T[c[1]], buffer=real.buffers[c[2]], quantity=c[3], **kw)
+    if k == "loadBuffer":
+        return ps.TaskLoadBuffer(task=T[c[1]], buffer=real.buffers[c[2]], quantity=c[3], **kw)
+    if k == "indicatorTarget":
+        return ps.IndicatorTarget(indicator=real.indicators[c[1]], value=c[2], **kw)
+    if k == "indicatorBounds":
+        return ps.IndicatorBounds(indicator=real.indicators[c[1]], lower_bound=c[2], upper_bound=c[3], **kw)
+    raise ValueError(k)
 
 
 def do(real, d):
-    raise ValueError(f"unknown op {d['op']}")
+    op = d["op"]
+    if op == "constraint":
+        kw = {"optional": d.get("optional", False)}
+        if d.get("name") is not None:
+            kw["name"] = d["name"]
+        make_constraint(real, d["c"], kw)
+    elif op == "buffer":
+        cls = ps.ConcurrentBuffer if d.get("concurrent", False) else ps.NonConcurrentBuffer
+        kw = {k2: d.get(k1) for k1, k2 in (("initial", "initial_level"), ("final", "final_level"),
+                                           ("lb", "lower_bound"), ("ub", "upper_bound")) if d.get(k1) is not None}
+        real.buffers[d["name"]] = cls(name=d["name"], **kw)
+    else:
+        from harness import pslib_ind
+        pslib_ind.do(real, d)
